@@ -18,6 +18,15 @@ type edgeCase struct {
 	N       int    `json:"n"`
 	Waits   bool   `json:"waits"`
 	Missing int    `json:"missing"`
+	Waiter  string `json:"waiter"` // side X: the call that is about to wait when Close comes
+}
+
+// edgeGate: when armed, the next process that reaches a ".wait" yield site (it has tested the done flag under the mutex and
+// is about to call Wait) is held there until released
+var edgeGate struct {
+	armed   int32
+	reached chan struct{}
+	release chan struct{}
 }
 
 var edgeParked int32
@@ -26,6 +35,63 @@ func edgeYield(id int64, site string) {
 	if site == "wfs.wait" || site == "rw.wait" {
 		atomic.StoreInt32(&edgeParked, 1)
 	}
+	if (site == "wfs.wait" || site == "rw.wait" || site == "rp.wait" || site == "r.wait") && atomic.CompareAndSwapInt32(&edgeGate.armed, 1, 0) {
+		close(edgeGate.reached)
+		<-edgeGate.release
+	}
+}
+
+// runCloseEdge: Close while a waiter sits between its test of the done flag and its Wait
+func runCloseEdge(c *edgeCase, size int64, bf *service.VerifBuffer, where string) (string, string) {
+	edgeGate.reached = make(chan struct{})
+	edgeGate.release = make(chan struct{})
+	atomic.StoreInt32(&edgeGate.armed, 1)
+	waiterDone := make(chan error, 1)
+	go func() {
+		var err error
+		switch c.Waiter {
+		case "Read":
+			_, err = bf.Read(make([]byte, 16))
+		case "ReadPeek":
+			_, err = bf.ReadPeek(16)
+		case "ReadWait":
+			_, err = bf.ReadWait(16)
+		case "Write":
+			_, err = bf.Write(make([]byte, 16))
+		default:
+			_, _, err = bf.WriteWait(16)
+		}
+		waiterDone <- err
+	}()
+	select {
+	case <-edgeGate.reached:
+	case <-time.After(3 * time.Second):
+		atomic.StoreInt32(&edgeGate.armed, 0)
+		return fmt.Sprintf("INFRA %s: %s did not reach its wait", where, c.Waiter), "INFRA"
+	}
+	closed := make(chan struct{})
+	go func() { bf.Close(); close(closed) }()
+	select {
+	case <-closed:
+		close(edgeGate.release)
+		return fmt.Sprintf("%s: Close returned while a %s was between its test of the closed flag and its Wait, holding the condition's mutex: Close does not take that mutex, its broadcast cannot reach this waiter (lost wake-up)", where, c.Waiter), "C15"
+	case <-time.After(40 * time.Millisecond):
+	}
+	close(edgeGate.release)
+	select {
+	case <-closed:
+	case <-time.After(3 * time.Second):
+		return fmt.Sprintf("%s: BLOCKED: Close does not return within 3 s after the waiting %s has gone into Wait", where, c.Waiter), "C15"
+	}
+	select {
+	case err := <-waiterDone:
+		if err == nil {
+			return fmt.Sprintf("%s: a %s that waited when the ring was closed returned without end-of-stream", where, c.Waiter), "C15"
+		}
+	case <-time.After(3 * time.Second):
+		return fmt.Sprintf("%s: BLOCKED: the ring was closed while a %s was about to wait; it was never woken (lost wake-up)", where, c.Waiter), "C15"
+	}
+	return "", ""
 }
 
 // runEdge puts a real buffer into the state of the case, makes the call and compares with the specification.
@@ -142,6 +208,9 @@ func runEdge(c *edgeCase, size int64) (string, string) {
 		return fmt.Sprintf("INFRA set-up cursors (%d,%d), wanted (%d,%d)", p, q, produced, c.C), "INFRA"
 	}
 	where := fmt.Sprintf("ring of %d bytes holding %d (consumer cursor %d)", size, c.Used, c.C)
+	if c.Side == "X" {
+		return runCloseEdge(c, size, bf, where)
+	}
 	atomic.StoreInt32(&edgeParked, 0)
 	done := make(chan string, 1)
 	if c.Side == "P" {
